@@ -103,8 +103,8 @@ PROPS = {
     },
     'C04': {
         'level': 'proof',
-        'level_text': 'Verus proves rule::parse/check/parse_without_ignore/check_without_ignore (verbatim bodies minus tracker) for every rule node type S and skip type IGN: success iff S matches a prefix and the position after IGN (none for the atomic pair) is the end of input; check == parse.is_some().',
-        'level_note': NOTE_COMMON + 'Selection of the wrapper by rule kind (impl_parse!) and TypedParser delegation are checked by Kani-bounded harnesses only.',
+        'level_text': 'Verus proves rule::parse/check/parse_without_ignore/check_without_ignore (verbatim bodies minus tracker) for every rule node type S and skip type IGN: success iff S matches a prefix and the position after IGN (none for the atomic pair) is the end of input; check == parse.is_some(). On rustc's expansion of the rule-kind macros over abstract inner/skip nodes it proves that impl_parse! selects the non-skipping pair exactly for atomic, compound-atomic and EOI rules, and that ParsableTypedNode::try_parse / try_check / try_parse_partial / try_check_partial start from a fresh empty stack and return Ok exactly when the rule's full (resp. prefix) match holds.',
+        'level_note': NOTE_COMMON + 'TypedParser::{try_parse,try_check} (one-line delegations) and 'the tree returned is the one the prefix parse returns' are covered only by the bounded differential enumeration.',
         'technique': TECH,
         'verus': ['wrappers', 'rules'],
         'expanded': True,
@@ -155,8 +155,8 @@ PROPS = {
     },
     'C08': {
         'level': 'proof',
-        'level_text': 'Verus proves the default methods of trait Input (match_string, match_insensitive, match_range, match_char_by, next, at_start, at_end, span, as_position) and the three implementations (Position, SubInput1, SubInput2: byte_offset, input, get, cursor, start, end) and the AsInput conversions against contracts in which result and advance are functions of rest(ctx, off) = bytes[off..end] alone, with SOI/EOI decided by off == start / off == end; so nothing at or beyond the span end can influence a matcher. skip and skip_until have their contracts assumed in Verus (unsupported constructs) and checked by bounded native enumeration; the end-to-end statement (Span/Position vs fresh copy on grammars) is a bounded stand-in.',
-        'level_note': NOTE_COMMON + 'Assumes the specs of the std shims (R3) and four UTF-8 lemmas (admitted; cross-checked by nb_shims); ptr::eq on inputs modelled as value equality.',
+        'level_text': 'Verus proves the default methods of trait Input (match_string, match_insensitive, match_range, match_char_by, next, at_start, at_end, span, as_position) and the three implementations (Position, SubInput1, SubInput2: byte_offset, input, get, cursor, start, end) and the AsInput conversions against contracts in which result and advance are functions of rest(ctx, off) = bytes[off..end] alone, with SOI/EOI decided by off == start / off == end; so nothing at or beyond the span end can influence a matcher. Input::skip and chars are proved too (vstd Chars model; UTF-8 boundary lemmas proved from vstd definitions). Only skip_until has its contract assumed in Verus (`continue` in a for loop is unsupported) and is checked by bounded native enumeration; the end-to-end statement (Span/Position vs fresh copy on generated rules) is a bounded stand-in.',
+        'level_note': NOTE_COMMON + 'Assumes the specs of the std shims (R3), the contract of skip_until, and that a str's length fits usize; ptr::eq on inputs modelled as value equality. The lifting from per-matcher contracts to every node type is an argument, not a proved lemma.',
         'technique': TECH,
         'verus': ['input', 'leaf'],
         'expanded': False,
@@ -169,8 +169,8 @@ PROPS = {
             ('nb_input', 'nb_matchers@release', 'RELEASE profile: every default matcher on all strings<=3 chars x all spans x 3 cursors', 'q', {'VERIF_PROFILE': 'release'}),
             ('nb_input', 'nb_shims', 'std shims + UTF-8 lemmas on all strings<=3 chars', 'q'),
         ],
-        'assumptions': ['contracts of Input::skip and Input::skip_until are assumed in Verus and checked only within the stated bound',
-                        'UTF-8 lemmas lemma_str_valid, lemma_valid_prefix_boundary, lemma_sub_boundary, lemma_boundary_ends are admitted'],
+        'assumptions': ['contract of Input::skip_until is assumed in Verus and checked only within the stated bound',
+                        'axiom: a str length fits usize; two leaf lemmas (newline literals as bytes, none else) admitted'],
     },
     'C09': {
         'level': 'proof',
@@ -189,19 +189,19 @@ PROPS = {
             ('nb_input', 'nb_matchers@release', 'RELEASE profile: every default matcher on all strings<=3 chars x all spans x 3 cursors', 'q', {'VERIF_PROFILE': 'release'}),
             ('nb_input', 'nb_shims', 'std shims + UTF-8 lemmas on all strings<=3 chars', 'q'),
         ],
-        'assumptions': ['UTF-8 lemmas admitted (see C08)', 'unsafe get_unchecked is given the same precondition as checked slicing (R3 shim)'],
+        'assumptions': ['unsafe get_unchecked is given the same precondition as checked slicing (R3 shim)', 'release profile is exercised only by the bounded enumerations (Verus treats cfg!(debug_assertions) as an arbitrary boolean)'],
     },
     'C10': {
         'level': 'proof',
-        'level_text': 'Verus proves on the real Tracker (bodies verbatim): prepare implements the furthest-position rule (tracked position = maximum seen, attempts dropped exactly when a further position arrives, never moves backwards); the reporting entry points (empty_stack, out_of_bound, repeat_too_many_times) and record_during_with keep the position monotone and inside the same input, keep the rule-frame stack balanced and the polarity unchanged; during/positive_during/negative_during and record_during_with run their closure exactly once on the tracker and return its result unchanged (this is also the soundness lemma of rewrite R1). Positions come from Inputs satisfying the boundary invariant (C09). Truthfulness of the listed rules, rendering (String/format!, BTreeMap) and determinism are bounded stand-ins (differential enumeration on generated parsers).',
-        'level_note': NOTE_COMMON + 'The attempts map (BTreeMap) and per-entry vectors are opaque: clear/get_entry/record are contract-only stubs (assumed). Position::cmp shim. "Every listed rule really fails/matches there" is not decided by any contract (only location, bounds, rendering, determinism within the bound).',
+        'level_text': 'Verus proves on the real Tracker (bodies verbatim): prepare implements the furthest-position rule (tracked position = maximum seen, attempts dropped exactly when a further position arrives, never moves backwards); the reporting entry points (empty_stack, out_of_bound, repeat_too_many_times) and record_during_with keep the position monotone and inside the same input, keep the rule-frame stack balanced and the polarity unchanged; during/positive_during/negative_during and record_during_with run their closure exactly once on the tracker and return its result unchanged (this is also the soundness lemma of rewrite R1). Positions come from Inputs satisfying the boundary invariant (C09). Truthfulness of the listed rules (every expected rule fails / every unexpected rule matches at the reported location), rendering (String/format!, BTreeMap) and determinism are bounded stand-ins (enumeration on generated parsers).',
+        'level_note': NOTE_COMMON + 'The attempts map (BTreeMap) and per-entry vectors are opaque: clear/get_entry/record are contract-only stubs (assumed). Position::cmp shim. "Every listed rule really fails/matches there" is not decided by any contract, only by the bounded enumeration.',
         'technique': TECH,
         'verus': ['tracker', 'wrappers'],
         'expanded': False,
         'kani': [],
         'native': [NB_GEN, NB_GEN_T, NB_GEN_SKIPTOK],
         'assumptions': ['contracts of Tracker::clear / get_entry / record are assumed (BTreeMap has no vstd model)',
-                        'truthfulness of expected/unexpected rule lists is not decided (only location, bounds, rendering, determinism within the bound)'],
+                        'truthfulness of expected/unexpected rule lists is decided only within the bound of nb_gen, with rules re-run in the default context'],
     },
     'C12': {
         'level': 'other',
